@@ -3,6 +3,7 @@ CONSTANTS
   FooterLens = {0, 9, 60}
   AadLens = {0, 7}
   V1SecretLens = {1186, 1187, 1188, 1189, 1190, 1191, 1192, 1193, 1194, 1195, 1196}
+  BigTuples <- BigQuick
 INIT Init
 NEXT Next
 INVARIANTS Emit Lengths
